@@ -164,15 +164,19 @@ impl Operator for Slice {
             && steps.iter().any(|step| *step != 1)
         {
             let input = input.auto_return(ctx.pool());
-            let mut inputs: Vec<_> = vec![input.as_view()];
+            let mut inputs: Vec<_> = vec![Some(input.as_view())];
 
+            // Keep the positions of the other inputs, as optional inputs may
+            // be missing. The first entry is the placeholder for the input
+            // that was passed in-place.
+            //
             // `inputs.extend(other.iter())` not used here as it triggers
             // a borrow-checking error.
-            for x in other.iter().flatten() {
+            for x in other.iter().skip(1) {
                 inputs.push(x);
             }
 
-            let input_list = InputList::from(&inputs);
+            let input_list = InputList::from_optional(&inputs);
             let ctx = OpRunContext::new(ctx.pool(), &input_list, ctx.outputs());
             return self.run(&ctx);
         }
